@@ -128,14 +128,15 @@ def merge_save_fault(k: int, partial: int, backup: bool, stale: bool, as_json: b
     return _verdict(fs, failed, backup, target, ORIG)
 
 
-def _rotate_main(fs, data, backup):
+def _rotate_main(fs, data, backup, files=None):
     saved = (ep.run, Parsers.get_yaml_data, rk.processcli, rk.validateargs, ep.EYAMLProcessor._can_run_eyaml)
     ep.run = fake_eyaml_run
-    Parsers.get_yaml_data = staticmethod(lambda parser, logger, source, **kw: (data, True))
+    Parsers.get_yaml_data = staticmethod(
+        lambda parser, logger, source, **kw: ((files[source] if files else data), True))
     ep.EYAMLProcessor._can_run_eyaml = lambda self: True
     rk.processcli = lambda: SimpleNamespace(
         quiet=True, verbose=False, debug=False, backup=backup, eyaml="eyaml", newprivatekey="newprv.pem",
-        newpublickey="newpub.pem", oldprivatekey="oldprv.pem", oldpublickey="oldpub.pem", yaml_files=["f.yaml"])
+        newpublickey="newpub.pem", oldprivatekey="oldprv.pem", oldpublickey="oldpub.pem", yaml_files=(sorted(files) if files else ["f.yaml"]))
     rk.validateargs = lambda args, log: None
     code = 0
     failed = False
